@@ -12,6 +12,9 @@ CHECKS = {
  "C03": ("logical work counter (cfg hook ticks), counting global allocator, nesting guard and per-run CPU clock as runtime monitors; absolute-bound oracle plus metamorphic saturation oracle over parameter magnitudes; worker-death attribution for allocation refusal / stack overflow / CPU hang",
          "Each template (complete CSI table with numeric slots, macro/sixel/font/margin families) is executed on the real engine with every slot at W*H+1, 2^16, 10^6 and 2^31-1. The monitors decide on deterministic counts (ticks, bytes requested, nesting depth), not wall-clock: ticks <= 16(n+1)WH*max(W,H), peak allocation <= 64MiB+4096n, nesting <= 32, and no growth beyond 2x between magnitudes >= 2^16. The CSI table is complete for parameter vectors of length <= 3 in quick and <= 6 in thorough.",
          "One tick per cell/pixel/glyph operation at the hook sites; loops without a tick are only seen by the 2 s CPU clock and the 60 s supervisor watchdog. Bounds are generous constants chosen by the harness; macro replay (65536 chars) and sixel (2048 px) limits of the engine are treated as fixed constants.", "DESIGN.md §4 C03"),
+ "C04": ("write->parse differential on the real ANSI writer and parser with an observational per-cell oracle (glyph bitmap, displayed foreground/background where the glyph has such pixels, blink), cycling through all 2304 option configurations x 3 ice modes, violations shrunk over options and cells",
+         "Every boolean save option combination (2^8) x 3 screen preparations x 3 control-character modes is exercised with generated buffers (6 per configuration in quick, 300 in thorough) whose rows are shaped for the substitutions (runs, blank runs on black / colour / blinking, rows ending at the margin, empty and full rows) and whose cells cover CP437 incl. NUL/0xFF/control codes, DOS/xterm/RGB colours and all attributes. The loaded buffer must show the same picture in every cell.",
+         "Equality is observational, as the statement words it; UTF-8 output is excluded.", "DESIGN.md §4 C04"),
  "C05": ("write->read differential on the real writers/loaders with an observational per-cell oracle (glyph bitmap, displayed colours, blink), independent reference decoders for BIN/ADF/IDF/Tundra reading the same bytes (three-way agreement), and load->save->load stability on accepted files incl. mutated ones",
          "Generated documents in each format's domain (XBin up to 4096 wide with 1 or 2 fonts of height 1..=32 and six-bit palettes, BIN even widths, ADF/IDF ice 8x16, Tundra 24-bit) with forced classes (heights <25/=25/>25, control-range characters, second-font cells) are saved, decoded by a reference decoder, loaded and compared on size, shown cells, font page, ice mode, fonts and palette, then re-saved and re-loaded. Seed files and mutated seeds that the loader accepts are checked for re-save stability.",
          "Cells are compared by what they show; palette colours at six-bit precision where the format stores six bits.", "DESIGN.md §4 C05"),
@@ -33,6 +36,9 @@ CHECKS = {
  "C14": ("recorded event log of harness-controlled decode completions (gate hook) checked offline against a sequential model; direct assertions on decoder output; Miri data-race/UB detection with 16 scheduler seeds (thorough)",
          "Schedules: for k<=4 images in flight all k! completion orders x all 2^k poll placements x 12 geometry classes (5304 schedules) are executed with real threads held in the gate; every poll runs under a 20 s no-block limit; the log of what is on screen after each step is checked against 'fold arrivals in order over the longest finished prefix'. Payloads: seeded sixel payloads (20k quick / 2M thorough) must decode to width*height*4 bytes consistent with a declared raster.",
          "Decode durations are not enumerated (order and poll placement determine the shared state). Images are identified by colour/position/size.", "DESIGN.md §4 C14"),
+ "C15": ("write->parse differential on the real writers and parsers of the six text formats with a per-cell oracle (character, displayed colours / inverse video), violations shrunk over cells",
+         "Buffers of width 80 (40 ATASCII), height 1..=40, printable CP437 minus lead-ins, all fg 0..=15 x bg 0..=7 attribute sequences, rows of every length incl. full width, 3 screen preparations: every cell up to the end of its row must come back.",
+         "Printable excludes C0, DEL and 0xFF (control codes of the underlying emulation).", "DESIGN.md §4 C15"),
  "C16": ("lock-step execution of the real Palette against a Vec reference model over seeded operation histories (runtime assertion after every insert), export->import differential for 5 file formats, exhaustive 64^3 six-bit codec enumeration",
          "Histories of up to 40 insert/set/push/resize/get operations on palettes of 0..=300 colours are run on the real Palette and a reference vector; after every insert the stability conditions of the property are asserted. Palettes of 0..=256 colours with awkward title/author/description texts are exported and re-imported in every format. All 262144 six-bit colours and the ADF EGA codec are enumerated.",
          "Growing resize from fewer than 16 colours is not modelled.", "DESIGN.md §4 C16"),
